@@ -251,6 +251,10 @@ class Library:
         it = n.replace('vec_', 'vecit_', 1).replace('deq_', 'deqit_', 1)
         f = {}
         f[n + '__copy'] = 'static inline %s %s__copy(%s v) { return v; }' % (ct, n, ct)
+        # operator== of two vectors: sizes differ -> false, same object -> true, else unknown but consistent (abstract content)
+        f[n + '__op_eq'] = ('_Bool __CPROVER_uninterpreted_eq_%s(uint64_t, uint64_t);\n'
+                            'static inline _Bool %s__op_eq(%s a, %s b) { if (a.n != b.n) return 0; if (a.vid == b.vid) return 1; '
+                            'return __CPROVER_uninterpreted_eq_%s(a.vid, b.vid); }' % (n, n, ct, ct, n))
         f[n + '__elem'] = ('static inline %s %s__elem(uint64_t vid, uint64_t i) { %s x; return x; }   /* abstract content: any value */' % (e, n, e))
         f[n + '__ctor0'] = 'static inline %s %s__ctor0(void) { %s v; v.n = 0; return v; }' % (ct, n, ct)
         f[n + '__size'] = 'static inline uint64_t %s__size(%s v) { return v.n; }' % (n, ct)
@@ -296,6 +300,10 @@ class Library:
                                'dereferenced at rend()"); return %s__elem(a.vid, a.i - 1); }' % (e, n, ct, vn))
         f[n + '__op_arrow'] = ('static inline %s %s__op_arrow(%s a) { __CPROVER_assert(a.i > 0 && a.i <= a.n, "UB: reverse iterator '
                                'dereferenced at rend()"); return %s__elem(a.vid, a.i - 1); }' % (e, n, ct, vn))
+        fit = n.replace('vecrit_', 'vecit_', 1)
+        # reference to a struct element through a reverse iterator: the element the wrapped forward iterator i-1 denotes
+        f[n + '__ref'] = ('static inline %s *%s__ref(%s a) { __CPROVER_assert(a.i > 0 && a.i <= a.n, "UB: reverse iterator '
+                          'dereferenced at rend()"); %s f; f.vid = a.vid; f.i = a.i - 1; f.n = a.n; return %s__ref(f); }' % (e, n, ct, fit, fit))
         return f
 
     def vecit(self, n, ct, e):
